@@ -118,8 +118,38 @@ def frozen_case(cid, rng, via, bare=None):
     return Case(cid, L, oracle=oracle, meta={"dist": {"kind": "frozen-" + via}})
 
 
+def copy_failure_cases(rng, tier):
+    """copy is all or nothing also when it runs out of memory half way: the destination either has every source entry
+    appended (status OK) or is exactly as before (any other status)"""
+    from vlib import ALLTYPES
+    for rep in range({"quick": 2, "thorough": 12, "search": 1}[tier]):
+        nsrc = rng.choice([2, 3, 4]); ndst = rng.choice([0, 1, 2])
+        L = ["mdnew 1", "mdnew 2"]
+        for i in range(nsrc):
+            ty = rng.choice(ALLTYPES)
+            L += [obj_line(10 + i, ty, [rand_elem(rng, ty)]), obj_line(30 + i, ty, [rand_elem(rng, ty)]),
+                  "mdadd 1 %s %d %s" % (name_hex(b"s%d" % i), 10 + i, rng.choice(["~", str(30 + i)]))]
+        for i in range(ndst):
+            L += ["mdaddint 2 %s %d %d" % (name_hex(b"d%d" % i), i, i + 1)]
+        L += ["mddump 2"]
+        i_before = len(L)
+        for k in range(0, 8 * nsrc + 2):
+            lines = L + ["allocfail %d" % k, "mdcopy 1 2", "mddump 2", "mdcnt 2"]
+            i_copy = i_before + 2
+
+            def oracle(c, i_before=i_before, i_copy=i_copy, nsrc=nsrc, ndst=ndst, k=k):
+                st = c.val(i_copy); after = c.val(i_copy + 1); cnt = c.val(i_copy + 2)
+                if st == "0":
+                    return [] if cnt == str(nsrc + ndst) else ["copy returned OK but the destination has %s entries, expected %d" % (cnt, nsrc + ndst)]
+                if after != c.val(i_before):
+                    return ["copy failed with %s at allocation %d and left the destination changed (%s entries, had %d)" % (st, k, cnt, ndst)]
+                return []
+            yield Case("cf%d-%d" % (rep, k), lines, oracle=oracle, compare=False, meta={"dist": {"kind": "copy-allocation-failure"}})
+
+
 def cases(rng, tier):
     idx = 0
+    yield from copy_failure_cases(rng, tier)
     depth = {"quick": 4, "thorough": 5, "search": 3}[tier]
     alpha = ["add", "rm", "copy", "freeze", "get", "addstr"]
     seqs = list(itertools.product(alpha, repeat=depth))
